@@ -774,17 +774,35 @@ func TestFreshRegistryReads(t *testing.T) {
 				}
 			}(li)
 		}
-		var got string
+		// the first call is made by three goroutines at the same moment (a spin barrier releases them together):
+		// whatever is built on first use is built once, by one of them, and all three see the finished thing
+		const firstCallers = 3
+		gots := make([]string, firstCallers)
+		var ready atomic.Int32
+		var firstsDone sync.WaitGroup
+		for fc := 0; fc < firstCallers; fc++ {
+			wg.Add(1)
+			firstsDone.Add(1)
+			go func(fc int) {
+				defer wg.Done()
+				defer firstsDone.Done()
+				defer func() {
+					if r := recover(); r != nil {
+						panics <- fmt.Sprint(r)
+					}
+				}()
+				running.Wait()
+				ready.Add(1)
+				for ready.Load() < firstCallers {
+					runtime.Gosched()
+				}
+				gots[fc] = first.f(reg)
+			}(fc)
+		}
 		wg.Add(1)
 		go func() {
 			defer wg.Done()
-			defer func() {
-				if r := recover(); r != nil {
-					panics <- fmt.Sprint(r)
-				}
-			}()
-			running.Wait()
-			got = first.f(reg)
+			firstsDone.Wait()
 			stop.Store(true)
 		}()
 		done := make(chan struct{})
@@ -806,9 +824,24 @@ func TestFreshRegistryReads(t *testing.T) {
 				t.Fatalf("panic in registry reads: %s", p)
 			}
 		}
-		if want := first.f(twin); got != want {
-			if rec.Report("c10", "read-differs-from-sequential|"+first.name, fmt.Sprintf("round %d: the first %s on a fresh registry answered %s while six goroutines were reading it, and %s on an untouched twin asked alone", round, first.name, short(got), short(want)), program{}) {
-				t.Fatalf("first %s differs", first.name)
+		want := first.f(twin)
+		for _, got := range gots {
+			if got != want {
+				if rec.Report("c10", "read-differs-from-sequential|"+first.name, fmt.Sprintf("round %d: the first %s on a fresh registry (made by three goroutines at once while six others were reading it) answered %s, and %s on an untouched twin asked alone", round, first.name, short(got), short(want)), program{}) {
+					t.Fatalf("first %s differs", first.name)
+				}
+				break
+			}
+		}
+		// and the registry is none the worse for it afterwards: its names, and a filter of it, are the twin's
+		if a, b := strings.Join(reg.Names(), ","), strings.Join(twin.Names(), ","); a != b {
+			if rec.Report("c10", "registry-damaged|names", fmt.Sprintf("round %d: after a concurrent first %s the registry lists %d names, its untouched twin %d", round, first.name, len(reg.Names()), len(twin.Names())), program{}) {
+				t.Fatalf("names differ after first %s", first.name)
+			}
+		}
+		if _, err := reg.Filter(lint.FilterOptions{ExcludeSources: lint.SourceList{lint.EtsiEsi}}); err != nil {
+			if rec.Report("c10", "registry-damaged|filter", fmt.Sprintf("round %d: after a concurrent first %s the registry cannot be filtered any more: %v", round, first.name, err), program{}) {
+				t.Fatalf("filter fails after first %s", first.name)
 			}
 		}
 		rec.Eval()
